@@ -2,7 +2,7 @@
 use sophia_api::{
     dataset::Dataset,
     ns::xsd,
-    term::{BnodeId, LanguageTag, Term, VarName},
+    term::{BnodeId, LanguageTag, Term, TermKind, VarName},
 };
 use sophia_iri::IriRef;
 use sophia_term::{ArcStrStash, ArcTerm, GenericLiteral};
@@ -454,14 +454,42 @@ impl EvalResult {
     ///
     /// Note that this function is actually more constrained than the SPARQL spec.
     /// In SPARQL, the order is partial,
-    /// while this function falls back to the total order defined by [`Term::cmp`].
+    /// while this function is a total preorder, consistent with the operator `<`
+    /// (if `x < y` then `x` is sorted before `y`):
+    /// * blank nodes are sorted before IRIs, before literals, before triple terms;
+    /// * literals are sorted by classes (numbers, NaNs, strings, language strings, booleans,
+    ///   dateTimes, others), so that two literals comparable by `<` always belong to the same class;
+    /// * numbers are sorted by their exact value (without any rounding),
+    ///   and dateTimes by their position on the timeline (UTC is used if they have no timezone);
+    /// * in any other situation, this function falls back to the total order defined by [`Term::cmp`].
     pub fn sparql_order_by(&self, other: &Option<Self>) -> Ordering {
         if let Some(val) = other {
-            self.sparql_cmp(val)
-                .unwrap_or_else(|| Term::cmp(&self.as_term(), val.as_term()))
+            self.order_by_class()
+                .cmp(&val.order_by_class())
+                .then_with(|| {
+                    if let (Some(s), Some(o)) = (self.as_value(), val.as_value()) {
+                        s.order_by_cmp(o)
+                    } else {
+                        None
+                    }
+                    .unwrap_or_else(|| Term::cmp(&self.as_term(), val.as_term()))
+                })
         } else {
             Ordering::Greater
         }
+    }
+
+    fn order_by_class(&self) -> (TermKind, u8) {
+        let kind = match self {
+            EvalResult::Term(t) => t.kind(),
+            EvalResult::Value(_) => TermKind::Literal,
+        };
+        let class = match self.as_value() {
+            Some(v) => v.order_by_class(),
+            None if kind == TermKind::Literal => SparqlValue::NO_ORDER_BY_CLASS,
+            None => 0,
+        };
+        (kind, class)
     }
 }
 
